@@ -226,7 +226,11 @@ def main():
         problems = []
         if ji in expected_status and hd.get("status") != str(expected_status[ji]):
             problems.append("the program exits with status %s, the members of its literals add up to %d" % (hd.get("status"), expected_status[ji]))
-        if hd.get("verify") != "ok":
+        if "NO-VERDICT" in hd.get("verify", ""):
+            # llvm-as / opt were killed or timed out three times in a row (a loaded machine): no statement about the IR
+            dist["llvm-tool-without-verdict"] += 1
+            rep.notes.append("an LLVM checker ended three times without a verdict on one input: " + rq[:120])
+        elif hd.get("verify") != "ok":
             problems.append("LLVM tools reject the IR: " + hd.get("verify", "?"))
         if hd.get("mods", "").startswith("h:") and len(hd["mods"].split(";")) == len(u):
             for (unit_name, unit_src), mod_hex in zip(u, hd["mods"].split(";")):
